@@ -40,7 +40,8 @@ class ByName(Names):
         return self._id("obj", o.name, o.name)
 
     def var(self, v):
-        return self._id("var", (v.name, str(v.type)), v.name)
+        # by identifier only: the model's variable id is the identifier (rtables.varOf), the type travels in EVar
+        return self._id("var", v.name, v.name)
 
     def ty(self, t):
         return self._id("ty", t.name, t.name)
@@ -196,13 +197,15 @@ def corpus_exprs(w):
         em.LT(em.Minus(i0, em.Int(-2)), em.Div(r0, em.Real(Fraction(-7, 2)))),
         em.LE(em.Plus(i0, i2, em.Int(3)), em.Times(em.Int(-1), i0, em.Real(Fraction(5, 4)))),
         em.Equals(em.Minus(em.Minus(i0, i2), i0), em.Div(em.Div(i0, em.Int(2)), em.Int(3))),
-        em.And(b0, em.Or(b0, b1(a0), em.Not(b1(a1))), em.Implies(b0, em.Implies(b1(c0), b0))),
-        em.Iff(b0, em.Not(b1(par["p0"]))),
+        em.And(b0, em.Or(b0, b1(a0), em.Not(b0)), b1(c0)),
+        em.Implies(b0, em.Implies(b1(c0), b0)),
+        em.Iff(b0, b1(par["p0"])),
         em.Forall(em.Exists(em.FluentExp(fl["b2"], (y, x)), y), x),
         em.Equals(em.FluentExp(fl["o0"]), em.FluentExp(fl["o1"], (par["p1"],))),
         em.Or(em.And(b0, em.ParameterExp(par["pb"])), em.LT(em.ParameterExp(par["pi"]), em.ParameterExp(par["pr"]))),
         em.Implies(em.Implies(b0, b0), em.TRUE()),
-        em.LT(em.Plus(i0, em.Times(em.Int(2), i2)), em.Minus(em.Times(i0, i0), em.Div(em.Int(1), em.Plus(i2, em.Int(4))))),
+        em.LT(em.Plus(i0, em.Times(em.Int(2), i2)), em.Minus(em.Times(i0, i0), em.Int(1))),
+        em.LT(em.Div(em.Int(1), em.Plus(i2, em.Int(4))), em.Times(i0, em.Plus(i2, em.Int(1)))),
         em.Or(em.And(b0, em.Not(b0)), em.Implies(em.And(b0, b0), em.Or(b0, b0))),
     ]
 
@@ -228,7 +231,7 @@ def run(ctx):
     # the real grammar needs time exponential in the nesting depth of parentheses (a FollowedBy look-ahead per
     # precedence level parses every operand twice): texts nested deeper than MAXD are not generated
     n_worlds = 1 if ctx.quick else 6
-    per_world = 12 if ctx.quick else 60
+    per_world = 8 if ctx.quick else 60
     n_hand = 10 if ctx.quick else len(HAND)
     MAXD = 3 if ctx.quick else 4
     cases, metas = [], []
@@ -310,7 +313,7 @@ def run(ctx):
             for e1, tag in [(e, "raw")] + ([(simp.simplify(e), "simplified")] if rng.random() < 0.4 else []):
                 items.append(("printed", e1, conv.walk(e1), tag))
                 dist[tag] += 1
-                for _ in range(2):
+                for _ in range(1 if ctx.quick else 2):
                     t = var.p(e1, 0)
                     if pdepth(t) <= 2:
                         items.append(("variant", e1, t, tag))
